@@ -367,6 +367,35 @@ pub enum Visibility {
 }
 
 impl Visibility {
+    /// The same visibility as it has to be spelled one module further down (the parser
+    /// struct lives in a generated `__parse__X` module and is re-exported from there):
+    /// paths relative to `super` / `self` need one more `super`.
+    pub fn in_nested_module(&self) -> Visibility {
+        let nest = |path: &Path| {
+            let mut path = path.clone();
+            if !path.absolute {
+                match path.ids.first().map(|id| id.to_string()).as_deref() {
+                    Some("super") => path.ids.insert(0, Atom::from("super")),
+                    Some("self") => path.ids[0] = Atom::from("super"),
+                    _ => {}
+                }
+            }
+            path
+        };
+        match self {
+            Visibility::Pub(Some(path)) => {
+                let nested = nest(path);
+                if nested == *path {
+                    self.clone()
+                } else {
+                    Visibility::PubIn(nested)
+                }
+            }
+            Visibility::PubIn(path) => Visibility::PubIn(nest(path)),
+            Visibility::Pub(None) | Visibility::Priv => self.clone(),
+        }
+    }
+
     pub fn is_pub(&self) -> bool {
         match *self {
             Visibility::Pub(_) => true,
